@@ -1005,6 +1005,8 @@ ELL_VARIANTS = {
     'fix_eps': {'fix_eps': True},
     'linear': {'linear': True},
     'iso': None,            # fit_isophote(5.0)
+    'sma0-7': {'_sma0': 7.0},       # an explicit start sma that differs from the geometry's
+    'no-sma0': {'_sma0': None},     # start from the geometry's own sma
 }
 ELL_COLS = ['sma', 'intens', 'eps', 'pa', 'x0', 'y0', 'grad', 'stop_code', 'niter', 'ndata']
 
@@ -1035,7 +1037,9 @@ def _ell_call(e, variant):
     if kw is None:
         iso = e.fit_isophote(5.0)
         return {c: np.asarray(getattr(iso, c)) for c in ELL_COLS}
-    il = e.fit_image(sma0=5.0, minsma=2.5, maxsma=8.0, step=1.0, **kw)
+    kw = dict(kw)
+    sma0 = kw.pop('_sma0', 5.0)
+    il = e.fit_image(sma0=sma0, minsma=2.5, maxsma=8.0, step=1.0, **kw)
     return {c: np.asarray(getattr(il, c)) for c in ELL_COLS}
 
 
@@ -1074,7 +1078,10 @@ def eval_ell(case):
         snap = _geo_snap(g)
         leaked = [k for k in snap0 if snap[k] != snap0[k]]
         if leaked:
-            fails.append(('ellipse/fit_image-config-leak',
+            # F22 is the leak of the fix flags / linear_growth; any other field has its own key
+            other = sorted(k for k in leaked if k not in ('fix', 'linear_growth'))
+            fails.append(('ellipse/fit_image-config-leak' if not other
+                          else 'ellipse/geometry-changed-by-a-call/' + '+'.join(other),
                           f'Ellipse({cfg}) after {seq[:i + 1]}: geometry fields {leaked} changed '
                           f'({ {k: snap0[k] for k in leaked} } -> { {k: snap[k] for k in leaked} })'))
         r = None if kind == 'exc' else cmp(res, ref, TOL, 'isophotes')
@@ -1096,8 +1103,10 @@ def _ell_cases(ctx, dseed):
             seqs += [(v, 'iso') for v in var] + [('iso', v) for v in var]
         elif geom == 'caller':
             seqs += list(itertools.permutations(var, 2)) + [(v, 'iso') for v in ('plain', 'fix_center')]
+            seqs += [('sma0-7', 'no-sma0'), ('no-sma0', 'sma0-7', 'no-sma0'), ('sma0-7', 'iso')]
         else:
-            seqs += [('fix_center', 'plain'), ('linear', 'plain'), ('plain', 'fix_eps'), ('fix_pa', 'iso')]
+            seqs += [('fix_center', 'plain'), ('linear', 'plain'), ('plain', 'fix_eps'), ('fix_pa', 'iso'),
+                     ('sma0-7', 'no-sma0')]
         for seq in seqs:
             yield {'sec': 'ell', 'cfg': cfg, 'seq': list(seq), 'dseed': dseed}
 
